@@ -1,5 +1,6 @@
 import ShroudVerif.Model.WrapC
 import ShroudVerif.Gen.CStmts
+set_option linter.unusedSimpArgs false
 /-!
 # C02  The generated C API of a C++ library is call-equivalent to the C++ API
 
